@@ -187,25 +187,17 @@ fn run_real<C: Suite>(c: &Case) -> Outcome {
     o
 }
 
-/// refresh / repair among t + extra holders, then the same drive on the maintained packages
-fn run_maintained<C: Suite>(c: &Case) -> Outcome {
+/// key material after share maintenance: dealer refresh / distributed refresh among the LAST t + extra
+/// holders, or repair of the last participant by the first t. Returns (key packages, public package, members).
+#[allow(clippy::type_complexity)]
+pub fn maintained<C: Suite>(grp: &Grp<C>, kind: &str, extra: u16, seed: &str) -> Result<(BTreeMap<Id<C>, KeyPackage<C>>, PublicKeyPackage<C>, Vec<Id<C>>), String> {
     use super::c10::{Node, refresh_dealer, refresh_dkg};
-    let mut o = Outcome::new();
-    let Case::Maintained { n, t, kind, extra, signers, seed, .. } = c else { unreachable!() };
-    let tag = format!("C03/{}", C::name());
-    let grp = match cached_group::<C>(KeySrc::Dealer, *n, *t, IdKind::Seq, seed) {
-        Ok(g) => g,
-        Err(e) => {
-            o.eval(false);
-            o.fail(format!("{tag}/setup"), e);
-            return o;
-        }
-    };
+    let t = &grp.t;
     let root = Node { t: *t, kps: grp.kps.clone(), pkp: grp.pkp.clone(), prev: None };
     // the holders that remain are the LAST t + extra (identifiers above 1)
-    let r = (*t + *extra) as usize;
+    let r = (*t + extra) as usize;
     let members: Vec<Id<C>> = grp.ids[grp.ids.len() - r..].to_vec();
-    let made: Result<(BTreeMap<Id<C>, KeyPackage<C>>, PublicKeyPackage<C>, Vec<Id<C>>), String> = match kind.as_str() {
+    match kind {
         "refresh-dealer" => refresh_dealer::<C>(&root, &members, seed).map(|nd| (nd.kps, nd.pkp, members.clone())),
         "refresh-dkg" => refresh_dkg::<C>(&root, &members, seed, *t).map(|nd| (nd.kps, nd.pkp, members.clone())),
         _ => {
@@ -237,7 +229,24 @@ fn run_maintained<C: Suite>(c: &Case) -> Outcome {
                 }
             }
         }
+    }
+}
+
+/// refresh / repair among t + extra holders, then the same drive on the maintained packages
+fn run_maintained<C: Suite>(c: &Case) -> Outcome {
+    let mut o = Outcome::new();
+    let Case::Maintained { n, t, kind, extra, signers, seed, .. } = c else { unreachable!() };
+    let tag = format!("C03/{}", C::name());
+    let grp = match cached_group::<C>(KeySrc::Dealer, *n, *t, IdKind::Seq, seed) {
+        Ok(g) => g,
+        Err(e) => {
+            o.eval(false);
+            o.fail(format!("{tag}/setup"), e);
+            return o;
+        }
     };
+    let r = (*t + *extra) as usize;
+    let made = maintained::<C>(&grp, kind, *extra, seed);
     let (kps, pkp, ids) = match made {
         Ok(x) => x,
         Err(e) => {
